@@ -302,7 +302,32 @@ def relayFeeMet (pol : Policy) (t : TxAbs) (isNew rateLimit : Bool) : Bool :=
   else if isNew && !pol.disablePriority && !t.highPrio then false
   else pol.freeRelay
 
-/-- `checkMempoolAcceptance`, in the order of the code. -/
+/-- tail of `checkMempoolAcceptance`: replacement rules, then script verification. -/
+def checkTail (pol : Policy) (s : Pool) (t : TxAbs) (isRepl : Bool) : CheckRes :=
+  if isRepl then
+    match validateReplacement pol s t with
+    | .error r => .err r
+    | .ok conflicts => if !t.scriptsOk then .err .invalid else .ok conflicts
+  else if !t.scriptsOk then .err .invalid else .ok []
+
+/-- middle of `checkMempoolAcceptance`: `CheckTransactionInputs`, standardness, sequence locks,
+sigop cost, relay fee. -/
+def checkInputs (pol : Policy) (c : Chain) (s : Pool) (t : TxAbs) (isNew rateLimit isRepl : Bool) : CheckRes :=
+  if t.ins.any (immature c) || !t.valuesOk then .err .invalid
+  else if !pol.acceptNonStd && !t.std then .err .nonstd
+  else if !t.seqLockOk then .err .nonstd
+  else if !t.sigOk then .err .nonstd
+  else if !relayFeeMet pol t isNew rateLimit then .err .lowfee
+  else checkTail pol s t isRepl
+
+/-- after `fetchInputUtxos`: already-in-chain test and the orphan test. -/
+def checkFetched (pol : Policy) (c : Chain) (s : Pool) (t : TxAbs) (isNew rateLimit isRepl : Bool) : CheckRes :=
+  if (List.range t.nOuts).any (fun i => c.has ⟨t.id, i⟩) then .err .dup
+  else if !(t.ins.filter (fun x => !available c s x)).isEmpty then
+    .missing ((t.ins.filter (fun x => !available c s x)).map (·.txid))
+  else checkInputs pol c s t isNew rateLimit isRepl
+
+/-- `checkMempoolAcceptance`, in the order of the code (finality first: fix of F-C10-b). -/
 def checkAccept (pol : Policy) (c : Chain) (s : Pool) (t : TxAbs)
     (isNew rateLimit rejectDupOrphans : Bool) : CheckRes :=
   if s.inPool t.id || (rejectDupOrphans && s.inOrphans t.id) then .err .dup
@@ -312,21 +337,7 @@ def checkAccept (pol : Policy) (c : Chain) (s : Pool) (t : TxAbs)
   else if !isFinal t (c.height + 1) c.mtp then .err .nonstd
   else match checkPoolDoubleSpend pol s t with
   | none => .err .dup
-  | some isRepl =>
-    if (List.range t.nOuts).any (fun i => c.has ⟨t.id, i⟩) then .err .dup
-    else
-      let missing := t.ins.filter (fun x => !available c s x)
-      if !missing.isEmpty then .missing (missing.map (·.txid))
-      else if t.ins.any (immature c) || !t.valuesOk then .err .invalid
-      else if !pol.acceptNonStd && !t.std then .err .nonstd
-      else if !t.seqLockOk then .err .nonstd
-      else if !t.sigOk then .err .nonstd
-      else if !relayFeeMet pol t isNew rateLimit then .err .lowfee
-      else if isRepl then
-        match validateReplacement pol s t with
-        | .error r => .err r
-        | .ok conflicts => if !t.scriptsOk then .err .invalid else .ok conflicts
-      else if !t.scriptsOk then .err .invalid else .ok []
+  | some isRepl => checkFetched pol c s t isNew rateLimit isRepl
 
 inductive AcceptRes
   | err (r : Rej)
